@@ -326,7 +326,14 @@ def run_stateful(inp):
                 [int(i) for i in df["particle"].values])
     try:
         if inp["entry"] == "link_df":
-            out = pred.link_df(pd.concat(tables, ignore_index=True), sr, **kw)
+            tab = pd.concat(tables, ignore_index=True)
+            # the table as a user may hold it: rows not ordered by frame (shuffled / sorted by position)
+            order = (len(tab) + len(tables)) % 3
+            if order == 1 and len(tab):
+                tab = tab.sample(frac=1, random_state=len(tab)).reset_index(drop=True)
+            elif order == 2 and len(tab):
+                tab = tab.sort_values(cols[-1], kind="stable").reset_index(drop=True)
+            out = pred.link_df(tab, sr, **kw)
             for t in sorted(set(int(x) for x in out["frame"].values)):
                 levels.append(level_of(out[out["frame"] == t]))
         else:
